@@ -21,7 +21,6 @@ import (
 	"github.com/ipfs/go-cid"
 	"github.com/ipld/go-ipld-prime/datamodel"
 	"github.com/ipld/go-ipld-prime/node/basicnode"
-	mh "github.com/multiformats/go-multihash"
 )
 
 type replayFile struct {
@@ -161,11 +160,11 @@ func CidFromAtom(a string) cid.Cid {
 	if a == "" {
 		return cid.Undef
 	}
-	h, err := mh.Sum([]byte(a), mh.SHA2_256, -1)
+	c, err := cid.V1Builder{Codec: cid.Raw, MhType: 0x12}.Sum([]byte(a))
 	if err != nil {
 		panic(err)
 	}
-	return cid.NewCidV1(cid.Raw, h)
+	return c
 }
 
 // Cid returns an arbitrary CID (possibly cid.Undef): an opaque identity.
